@@ -3,6 +3,8 @@
 Tokens: the `metadata` parameter of an update ('md'), values taken out of a metadata
 container ('take:<f>@line' / 'field:<f>').  Events come from sa.paths.
 """
+import ast
+
 from ..paths import fmt_path, FLAT, NESTED, NONE, OTHER, SCALAR
 
 RULES = {
@@ -225,6 +227,22 @@ def check_class(ctx, R, cls, rules=None):
                         # field-to-field transfer: the taken value was moved into another container
                         ok = any(x.kind == 'ST' and has(x.b, taketag) and x.a != e.a for x in evs) and \
                             any(x.kind == 'REL' for x in evs)
+                    if not ok:
+                        # truthiness-guarded release: on the path where the taken value tested falsy
+                        # nothing was there, so nothing is owed
+                        ok = any(x.kind == 'COND' and x.b is False and taketag in _cond_tags(st, x) for x in evs[i:])
+                    if not ok:
+                        # `for .. in <taken>: release(..)`: on the zero-iteration path the taken container was empty
+                        tknode = (e.x or {}).get('node')
+                        for x in evs[i:]:
+                            if x.kind == 'LOOPEXIT' and x.a == 0 and x.c == 'cond' and x.x and tknode is not None:
+                                loop = x.x['node']
+                                it = getattr(loop, 'iter', None)
+                                if it is not None and (any(n is tknode for n in ast.walk(it)) or taketag in st_tags_of(st, it)):
+                                    body_rel = any(isinstance(n, ast.Call) and isinstance(n.func, ast.Attribute)
+                                                   and n.func.attr == '_release_refs' for n in ast.walk(loop))
+                                    if body_rel:
+                                        ok = True
                     rep('REMOVE-RELEASES', token, ok, 'value removed from self.%s is never released on this path' % e.a,
                         e.line, evs)
             # ------------------------------------------------------------ REL-AFTER-AWAIT
@@ -263,6 +281,8 @@ def check_class(ctx, R, cls, rules=None):
             if exc_i is not None:
                 srcev = (evs[exc_i].x or {}).get('source')
                 for e in evs[exc_i:]:
+                    if e.kind == 'ITER':
+                        break           # the next iteration handles the next element
                     if e.kind == 'REL':
                         rep('NO-REL-ON-FAIL', e.a, False,
                             'release of %s reachable after an exception raised at line %d (%s)'
@@ -296,6 +316,14 @@ DROPPED_EMIT_OK = {
     ('collect', 'flush'): 'invoked as a user callback (flush signal), a buffering node by documentation: '
                           'its emission is not part of any producer\'s update()',
 }
+
+
+def st_tags_of(st, node):
+    out = set()
+    for n in ast.walk(node):
+        if isinstance(n, ast.Name):
+            out |= set(st.env.get(n.id, ()))
+    return out
 
 
 def _cond_tags(st, cond_ev):
